@@ -1,5 +1,5 @@
 (* C08 - inclusions p <= Z <= W <= lex (both modes).  (p <= c <= W: see the c-inference development.) *)
-From InfOCF Require Import Core Tol Form Model Spec Exec ThmIncl.
+From InfOCF Require Import Core Tol Form Model Spec Exec ThmIncl ThmPExt.
 From InfOCFProps Require Import Ex.
 
 (* on the definitions, for every world list (any signature size, feasible worlds included) and partition *)
@@ -28,6 +28,11 @@ Theorem C08_chain_extended : forall n D P q, D <> [] -> part_ext n D = Some P ->
   (infer n SysW true D q = Ans true -> infer n SysLex true D q = Ans true).
 Proof. exact ext_chain. Qed.
 Print Assumptions C08_chain_extended.
+
+Theorem C08_p_sub_z_extended : forall n D P q, D <> [] -> NoDup (map ckey D) -> part_ext n D = Some P ->
+  infer n SysP true D q = Ans true -> infer n SysZ true D q = Ans true.
+Proof. exact ext_chain_full. Qed.
+Print Assumptions C08_p_sub_z_extended.
 
 (* the inclusions are strict on the birds base: (w|p) separates Z from W *)
 Example birds_separates : infer 4 SysZ false birds q_wp = Ans false /\ infer 4 SysW false birds q_wp = Ans true
